@@ -92,6 +92,10 @@ func (w *World) entriesByNames(s string) []ipfslog.Entry {
 		return out
 	}
 	for _, n := range strings.Split(s, ",") {
+		if t, ok := w.tampered[n]; ok {
+			out = append(out, t)
+			continue
+		}
 		e := w.entryByName(n)
 		if e == nil {
 			panic("unknown entry " + n)
